@@ -26,11 +26,18 @@ type WeightedLoadBalance struct {
 // MakeWeightedLoadBalance returns a WeightedLoadBalance instance.
 func MakeWeightedLoadBalance(uris map[string]int) (lb WeightedLoadBalance) {
 	n := len(uris)
+	if n == 0 {
+		panic("loadbalance: no urls")
+	}
 	lb.URLs = make([]*url.URL, n)
 	lb.Weights = make([]int64, n)
 	i := 0
 	for key, value := range uris {
-		lb.URLs[i], _ = url.Parse(key)
+		var err error
+		if lb.URLs[i], err = url.Parse(key); err != nil {
+			// a nil entry would be selected like any other and dereferenced by the transport
+			panic("loadbalance: " + err.Error())
+		}
 		lb.Weights[i] = int64(value)
 		if value <= 0 {
 			panic("loadbalance: urls weight must be great than 0")
